@@ -877,6 +877,9 @@ func (c *Conn) maxPayloadSizeForWrite(typ recordType) int {
 		case aead:
 			maxPayload -= ciph.Overhead()
 		case cbcMode:
+			blockSize := ciph.BlockSize()
+			// payload + MAC + padding 必须填满整数个分组，且至少有 1 字节填充（与 tlcp 一致）
+			maxPayload = (maxPayload & ^(blockSize - 1)) - 1
 			maxPayload -= c.out.mac.Size()
 		}
 	}
